@@ -3,7 +3,7 @@
 # Evidence of these runs goes to /var/tmp/verif-mut-evidence (tools/trymut.sh), never to /verif/evidence.  /repo is reverted after every run.
 cd /verif || exit 3
 PAIRS="$*"
-if [ -z "$PAIRS" ]; then for d in seeded/*/; do id=$(basename $d); chk=$(echo $id | sed "s/[bc]$//"); PAIRS="$PAIRS $id:$chk"; done; fi
+if [ -z "$PAIRS" ]; then for d in seeded/C*/; do id=$(basename $d); chk=$(echo $id | sed "s/[bcd]$//"); PAIRS="$PAIRS $id:$chk"; done; fi
 for pc in $PAIRS; do
   id=${pc%%:*}; chk=${pc##*:}
   out=$(tools/trymut.sh /verif/seeded/$id/patch.diff $chk 2>&1); rc=$?
